@@ -268,3 +268,15 @@ fn c13_content_and_signature_ecdh() {
         }
     }
 }
+
+/// Vacuity guard (thorough tier): must FAIL.
+#[cfg(feature = "thorough")]
+#[kani::proof]
+#[kani::unwind(4)]
+fn c13_false_twin() {
+    let (buf, n) = sym_input!(8);
+    let b = &buf[..n];
+    let r = tp::parse_digitally_signed(b);
+    check_signed(b, 0, r.as_ref().ok().map(|(rem, v)| (*rem, v)), true, true);
+    vassert!(false, "C13.false_twin");
+}
